@@ -26,6 +26,9 @@ What is checked (public API of the working tree only):
   the ROTATED coordinates are both dyadic rationals: the floats given to the implementation denote both systems exactly.
   For a seeded subset the result for the MOVED system is also compared with the exact Coq model (runner commands
   2, 7, 9, 11, 13, 15, 16, 21, 101, 102), so that a defect that is itself covariant is still seen.
+  Stream "nearfar" (gen_nearfar_case): nearly coincident DISTINCT centres (1e-4 .. 1e-6 bohr apart) in a frame near the
+  origin against the same system 50-150 bohr away - a "same centre" decision relative to the absolute coordinates
+  (numpy.allclose) holds in one frame only.
 
 Tolerance: 1e-9 x scale, scale = max over the shell(-pair) block [per point for evaluations] of the propagated
 magnitudes |D|^T |X'| |D| and of |X|, but at least 1e-6 of the largest such magnitude of the array and at least the
@@ -65,7 +68,11 @@ RULE = ("function groups eval (evaluate_basis), deriv (evaluate_deriv_basis, bot
         "transform C (moved along as C D^T); geometries in general position (no coordinate difference of two centres or of "
         "a point and a centre is zero, in either frame) for >= 2/3 of the cases, the rest with shared centres / points on "
         "centres / axes; PSD dyadic density matrices A A^T; a seeded ~12% of the cases also compares the moved system with "
-        "the exact model. Non-trivial: the motion is not the identity and the original array is not identically zero; "
+        "the exact model; stream nearfar (quick 16, thorough 64 cases; groups int2, moment, momentum, eval): two shells of "
+        "opposite parity (l <= 2, K, M <= 2, exponents 0.5..20) on DISTINCT centres (0.5..1) x 1e-4 / 1e-5 / 1e-6 bohr apart per "
+        "component, optionally a third shell, one frame within 2 bohr of the origin and the other moved by a signed axis "
+        "permutation and a translation of 50..150 bohr per axis (both frames exactly representable, 49-bit coordinates; "
+        "original = near or far alternately), half of them also against the exact model. Non-trivial: the motion is not the identity and the original array is not identically zero; "
         "distinct by the hash of the exact input")
 ASSUMPTIONS = [
     "rounding of the NumPy pipeline is not modelled: covariance is decided to 1e-9 x (block scale of the propagated "
@@ -908,7 +915,98 @@ def gen_case(rng, group, kind, idx, tier, lcycle):
     return case
 
 
+NEARFAR_GROUPS = ("int2", "moment", "momentum", "eval")
+
+
+def _is_double(v):
+    return Fraction(float(v)) == v
+
+
+def gen_nearfar_case(rng, group, idx):
+    """Two shells of opposite parity (l <= 2) on DISTINCT centres A, B = A + d, |d_a| = (0.5..1) x 1e-4 / 1e-5 / 1e-6 per
+    component (multiples of 2^-40), optionally a third shell 1-2 bohr away; the NEAR frame has A within 2 bohr of the
+    origin (for |d| < 5e-5: one coordinate of A is 0, so that the two centres differ RELATIVELY by more than 1e-5 in
+    that coordinate), the FAR frame is the near one moved by a signed axis permutation and a translation of 50..150 bohr
+    per axis (k/16): there every coordinate of A and B agrees to a relative 1e-6..1e-8.  Even idx: original = near,
+    moved = far; odd idx: original = far, moved = near.  Every coordinate is a double in BOTH frames (49 bits).
+    Anything that decides "same centre" relative to the absolute coordinates treats the pair as one centre in the far
+    frame only, and the opposite-parity blocks (first order in d) break covariance by |d| sqrt(alpha)."""
+    la, lb = ((0, 1), (1, 0), (1, 2), (2, 1))[rng.randrange(4)]
+    u = (4, 5, 6, 4)[idx % 4]
+    A = [F(rng.randint(-32, 32), 16) for _ in range(3)]
+    if u > 4:
+        A[rng.randrange(3)] = F(0)
+    d = [rng.choice([-1, 1]) * F(round(10.0 ** -u * rng.uniform(0.5, 1.0) * 2 ** 40), 2 ** 40) for _ in range(3)]
+    B = [A[a] + d[a] for a in range(3)]
+    R = [[F(v) for v in row] for row in (SIGNED[0] if idx % 3 == 0 else SIGNED[rng.randrange(48)])]
+    t = [rng.choice([-1, 1]) * F(rng.randint(50 * 16, 150 * 16), 16) for _ in range(3)]
+    near = lambda span: [A[a] + F(rng.randint(-16 * span, 16 * span), 16) for a in range(3)]
+    centres = [A, B]
+    ls = [la, lb]
+    if rng.random() < 0.6:
+        c3 = near(2)
+        while c3 == A:
+            c3 = near(2)
+        centres.append(c3)
+        ls.append(rng.randint(0, 2))
+    mode = rng.random()
+    shells = []
+    for c, l in zip(centres, ls):
+        sph = True if mode < 0.25 else (False if mode < 0.5 else (rng.random() < 0.5))
+        shells.append(gen_shell(rng, l=l, kmax=2, mmax=2, sph=sph, coord=list(c), exp_lo=0.5, exp_hi=20.0))
+    if len(shells) == 3 and rng.random() < 0.5:
+        shells.insert(rng.randrange(2), shells.pop())          # the pair is not always listed first / adjacent
+    points = [near(1) for _ in range(rng.randint(2, 4))] if group == "eval" else []
+    if points and rng.random() < 0.5:
+        points[0] = list(A)
+    chg = [near(2) for _ in range(rng.randint(1, 2))] if group == "int2" else []
+    origin = near(1) if group == "moment" else [F(0)] * 3
+    if idx % 2 == 1:
+        # original = far frame z = R y + t, motion back: y = R^T z - R^T t
+        mv = lambda x: apply_motion(R, t, x)
+        for sh in shells:
+            sh.coord = mv(sh.coord)
+        points, chg = [mv(x) for x in points], [mv(x) for x in chg]
+        origin = mv(origin) if group == "moment" else origin
+        Rt = [[R[b][a] for b in range(3)] for a in range(3)]
+        t = [-sum(Rt[a][b] * t[b] for b in range(3)) for a in range(3)]
+        R = Rt
+    vecs = [sh.coord for sh in shells] + points + chg + ([origin] if group == "moment" else [])
+    assert all(_is_double(v) for x in vecs for v in x) and all(_is_double(v) for x in vecs for v in apply_motion(R, t, x))
+    uniq = []
+    for v in vecs:
+        if v not in uniq:
+            uniq.append(v)
+    case = {"kind": "cov", "group": group, "motion": "nearfar", "general_position": bool(_general(R, t, uniq)),
+            "basis": [sh.to_json() for sh in shells], "R": [[str(c) for c in row] for row in R],
+            "t": [str(c) for c in t], "points": [[str(c) for c in x] for x in points],
+            "charges": [[str(c) for c in x] + [str(F(rng.choice([1, 2, 6, 8, -1, 3]), rng.choice([1, 1, 2])))] for x in chg],
+            "origin": [str(c) for c in origin], "pseed": rng.randrange(1 << 30)}
+    if group == "moment":
+        orders = []
+        for _ in range(rng.randint(1, 2)):
+            o = list(rng.choice(all_orders(rng.randint(0, 2))))
+            if o not in orders:
+                orders.append(o)
+        case["orders"] = orders
+    return case
+
+
 def gen_cases(tier, seed):
+    cases = _gen_cases_main(tier, seed)
+    # nearly coincident DISTINCT centres, one frame 50-150 bohr from the origin (own PRNG; appended, so the cases of
+    # the older streams are unchanged); half of them also against the exact model (moved system)
+    rng = random.Random(1000003 * seed + 121212)
+    for g in NEARFAR_GROUPS:
+        for idx in range(4 if tier == "quick" else 16):
+            c = gen_nearfar_case(rng, g, idx)
+            if idx % 4 in (0, 3):
+                c["xmodel"] = True
+            cases.append(c)
+    return cases
+
+
+def _gen_cases_main(tier, seed):
     rng = random.Random(1000003 * seed + 1212)
     cases = []
     lcycle = [0]
